@@ -1212,6 +1212,11 @@ func (g *g12) opsTopics() {
 		g.b.Inc("honest_after_refused_accept")
 	}
 	g.judge("attester_slashing", "all-indices-seen", hs, expIgnore, runAS(honestAS))
+	// the voters of the first attestation are a superset starting with one the second does not have
+	v.fresh()
+	g.judge("attester_slashing", "honest-first-has-a-leading-voter-the-second-lacks", hs, expAccept, runAS(&phase0.AttesterSlashing{Attestation1: mkIA(1, 0, cur, idx, idx), Attestation2: mkIA(2, 0, cur, idx[1:], idx[1:])}))
+	v.fresh()
+	g.judge("attester_slashing", "honest-partial-overlap", hs, expAccept, runAS(&phase0.AttesterSlashing{Attestation1: mkIA(1, 0, cur, idx[:2], idx[:2]), Attestation2: mkIA(2, 0, cur, idx[1:], idx[1:])}))
 	if cur >= 3 {
 		v.fresh()
 		// surround vote: (0 -> cur) surrounds (1 -> cur-1)
